@@ -316,7 +316,15 @@ func (r *Runner) execStore(cmd string, a []string) string {
 		var derr error
 		okp, msg := guard(func() {
 			if cmd == "sproto" {
-				store.MergeWithProto(o.s, e.s.ToProto())
+				pb := e.s.ToProto()
+				store.MergeWithProto(o.s, pb)
+				// store.FromProto: a dense store holding exactly the message's content
+				// (a dense array over the whole index span: only for moderate spans)
+				if want := e.truth.Bins(); len(want) == 0 || want[len(want)-1].idx-want[0].idx < 100000 {
+					if fp := collectForEach(store.FromProto(pb)); !sameBins(fp, want) {
+						r.oracleFail("store-from-proto", fmt.Sprintf("%s: FromProto(ToProto()) holds %s, the store %s", e.kind, showBinsRat(fp), showBinsRat(want)))
+					}
+				}
 				return
 			}
 			var b []byte
